@@ -191,6 +191,7 @@ TEXT_ALPHABET = "abcXYZ 019_-.,;:!?/\\'\"#<>=[]{}$|é中" + "\r\x0b\x0c\x1c\x1d\
 RAW_NOT_REPRODUCED = []      # filled by the deriver (see _value_of_raw), drained by the checks that build payloads from derived values
 RAW_TRIED = [0]
 STATS = {}
+_FULL = [0]
 
 
 class Deriver:
@@ -449,6 +450,17 @@ class Deriver:
             else:
                 n = self.rng.choice([0, 1, 2, 3, self.rng.randint(0, 6)])
                 n = min(n, max_len)
+                # exactly as many entries as the count prefix can announce (every 25th one-byte-counted collection of small
+                # fixed-size entries): the largest legitimate value of the count, not one more
+                if max_len <= 255:
+                    _FULL[0] += 1
+                    try:
+                        small = (spec._entry_ser.calc_size() or 99) <= 20
+                    except Exception:
+                        small = False
+                    if small and _FULL[0] % 25 == 0:
+                        n = max_len
+                        STATS["collections_filled_to_their_count_limit"] = STATS.get("collections_filled_to_their_count_limit", 0) + 1
         elif spec._length:
             n = spec._length
             if self._poison_here():
